@@ -146,6 +146,11 @@ func genHist(r *Rng, tier string, n int, emit func(string)) {
 		}
 		hostPct := Pick(cr, []int{0, 0, 30, 60})
 		pool := genNestedPool(cr, 3+cr.Intn(14), hostPct)
+		if cr.Chance(20) {
+			// hostnames extending one another, each with a few paths (host/path boundary cases of deletion); one method
+			pool = genHostFamily(cr)
+			methods = methods[:1]
+		}
 		var ops []string
 		hid := 0
 		k := 6 + cr.Intn(50)
